@@ -10,7 +10,10 @@ package referenceserver
 // snappy framing format).
 //
 // Complete enumeration: encodings (6 + UNSPECIFIED) x inputs (6) x producers x
-// consumers, every pair must return the original bytes.
+// consumers, every pair must return the original bytes. The same pairs are run
+// for the inputs that compress best (all-zero, one repeated byte, a short
+// repeated pattern at sizes 2^k-1, 2^k, 2^k+1 up to 1 MiB): messages that expand
+// thousands of times are ordinary messages for every decompressor of the tree.
 
 import (
 	"bytes"
@@ -31,6 +34,7 @@ import (
 	"sort"
 	"strings"
 	"testing"
+	"time"
 
 	"connectrpc.com/conformance/internal"
 	"connectrpc.com/conformance/internal/compression"
@@ -83,6 +87,48 @@ func c20aInputs() []c20aInput {
 		{"lcg64k", rnd},
 		{"text", []byte("The quick brown fox jumps over the lazy dog. The quick brown fox jumps over the lazy dog.")},
 	}
+}
+
+// c20aRatioInput: a message that compresses extremely well (built on demand, up to 1 MiB [thorough 2 MiB]).
+type c20aRatioInput struct {
+	Name    string
+	Pattern []byte
+	Size    int
+}
+
+func (in c20aRatioInput) Make() []byte {
+	out := make([]byte, in.Size)
+	if len(in.Pattern) == 1 && in.Pattern[0] == 0 {
+		return out
+	}
+	for i := 0; i < len(out); i += copy(out[i:], in.Pattern) {
+	}
+	return out
+}
+
+// c20aRatioInputs: patterns {all-zero, one repeated byte, a short repeated pattern [thorough: + 0xFF, 2-byte and
+// 7-byte patterns]} x sizes {2^k-1, 2^k, 2^k+1 : k = 10..20 [..21]}, smallest first.
+func c20aRatioInputs(thorough bool) []c20aRatioInput {
+	type pat struct {
+		name string
+		b    []byte
+	}
+	pats := []pat{{"zeros", []byte{0}}, {"a", []byte("a")}, {"abc", []byte("abc")}}
+	maxK := 20
+	if thorough {
+		pats = append(pats, pat{"ff", []byte{0xff}}, pat{"ab", []byte("ab")}, pat{"conform", []byte("conform")})
+		maxK = 21
+	}
+	var out []c20aRatioInput
+	for k := 10; k <= maxK; k++ {
+		for _, d := range []int{-1, 0, 1} {
+			for _, p := range pats {
+				n := 1<<k + d
+				out = append(out, c20aRatioInput{Name: fmt.Sprintf("ratio:%s:%d", p.name, n), Pattern: p.b, Size: n})
+			}
+		}
+	}
+	return out
 }
 
 func c20aGuard(f func()) (panicked string) {
@@ -187,6 +233,62 @@ func c20aDecompress(d connect.Decompressor, stream []byte) (out []byte, err erro
 			return
 		}
 		out, err = io.ReadAll(d)
+	}); p != "" {
+		return nil, fmt.Errorf("panic: %s", p)
+	}
+	return out, err
+}
+
+// c20aCompressPooled uses the instance exactly as connect-go's compressionPool does (compression.go: Compress /
+// putCompressor), for a first message and then for data: Reset(dst); src.WriteTo(compressor) with src a
+// *bytes.Buffer - which does not call Write at all for an empty message -; Close; Reset(io.Discard).
+func c20aCompressPooled(c connect.Compressor, data []byte) (out []byte, err error) {
+	var first, buf bytes.Buffer
+	if p := c20aGuard(func() {
+		c.Reset(&first)
+		if _, err = bytes.NewBufferString("first message of the pooled instance").WriteTo(c); err != nil {
+			return
+		}
+		if err = c.Close(); err != nil {
+			return
+		}
+		c.Reset(io.Discard)
+		c.Reset(&buf)
+		if _, err = bytes.NewBuffer(data[:len(data):len(data)]).WriteTo(c); err != nil {
+			return
+		}
+		if err = c.Close(); err != nil {
+			return
+		}
+		c.Reset(io.Discard)
+	}); p != "" {
+		return nil, fmt.Errorf("panic: %s", p)
+	}
+	return buf.Bytes(), err
+}
+
+// c20aDecompressPooled: as connect-go's compressionPool.Decompress / putDecompressor, for a first message
+// (firstStream, a valid message of the encoding) and then for stream: Reset(src); read; Close; Reset(http.NoBody).
+func c20aDecompressPooled(d connect.Decompressor, firstStream, stream []byte) (out []byte, err error) {
+	if p := c20aGuard(func() {
+		if err = d.Reset(bytes.NewBuffer(firstStream[:len(firstStream):len(firstStream)])); err != nil {
+			err = fmt.Errorf("first message of the pooled instance: Reset: %w", err)
+			return
+		}
+		if _, err = io.ReadAll(d); err != nil {
+			err = fmt.Errorf("first message of the pooled instance: %w", err)
+			return
+		}
+		_ = d.Close()
+		_ = d.Reset(http.NoBody)
+		if err = d.Reset(bytes.NewBuffer(stream[:len(stream):len(stream)])); err != nil {
+			return
+		}
+		var sink bytes.Buffer
+		_, err = sink.ReadFrom(d) // what connect-go does (data.ReadFrom(reader))
+		out = sink.Bytes()
+		_ = d.Close()
+		_ = d.Reset(http.NoBody)
 	}); p != "" {
 		return nil, fmt.Errorf("panic: %s", p)
 	}
@@ -374,11 +476,17 @@ func c20aAccepted(enum conformancev1.Compression, form c20aForm, candidates []st
 
 // ---------------------------------------------------------------------------
 
+const c20aPooledSuffix = " [pooled instance, 2nd message]"
+
 type c20aParty struct {
 	Label string
 	Src   string // "enum" | "tracer" | "raw" | "server-reg" | "client-reg" | "connect-default" | "independent"
 	Enc   func(data []byte) ([]byte, error)
 	Dec   func(stream []byte) ([]byte, error)
+	// constructors, where the party is an instance of connect.Compressor / connect.Decompressor: the party is then
+	// also run as a POOLED instance (second message of an instance that went through connect-go's pool)
+	NewComp func() (connect.Compressor, error)
+	NewDec  func() (connect.Decompressor, error)
 }
 
 type c20aCase struct {
@@ -393,7 +501,9 @@ func TestVerifC20Agree(t *testing.T) {
 	defer r.Write()
 	r.Rule = "for each of the 6 encodings (and UNSPECIFIED) x 6 inputs: every producer {compression.GetCompressor(enum), internal.WriteRawMessageContents(enum), constructor registered by reference server / client under the name, connect-go default for gzip, independent encoder of the algorithm the HTTP name denotes} x every consumer " +
 		"{compression.GetDecompressor(enum), tracer.GetDecompressor(name) and upper-cased name, registered constructors, independent decoder}; name = the one checkCompression accepts for the enum on each of 5 request forms (14 candidate names); " +
-		"a (producer, consumer) pair is non-trivial when the two come from different sources; cross-decodes by the other 5 algorithms recorded as outcomes"
+		"every producer / consumer that is a connect.Compressor / Decompressor instance also as a POOLED instance (2nd message after Reset(dst) WriteTo Close Reset(io.Discard) resp. Reset(src) read Close Reset(http.NoBody), as connect-go's compressionPool; bytes.Buffer.WriteTo = no Write call for the empty message); " +
+		"a (producer, consumer) pair is non-trivial when the two come from different sources; cross-decodes by the other 5 algorithms recorded as outcomes; " +
+		"the same producer x consumer pairs for the extreme-ratio inputs {all-zero, repeated 'a', repeated 'abc' [thorough + 0xFF, 'ab', 'conform']} x sizes {2^k-1, 2^k, 2^k+1 : k = 10..20 [..21]} (expansion ratio classes recorded as outcomes)"
 	var replayOnly *c20aCase
 	if data := rep.ReplayInput(); data != nil {
 		var file struct {
@@ -410,6 +520,8 @@ func TestVerifC20Agree(t *testing.T) {
 		}
 	}
 	replayMatched := false
+	deadline := rep.Deadline()
+	ratioBudgetHit := false
 	repo := os.Getenv("VERIF_REPO")
 	if repo == "" {
 		repo = "../../.."
@@ -473,6 +585,8 @@ func TestVerifC20Agree(t *testing.T) {
 				Enc: func(d []byte) ([]byte, error) { return c20aIndepEncode(name, d) },
 				Dec: func(s []byte) ([]byte, error) { return c20aIndepDecode(name, s) }},
 			{Label: "compression.Get(" + enum.String() + ")", Src: "enum",
+				NewComp: func() (connect.Compressor, error) { return compression.GetCompressor(enum) },
+				NewDec:  func() (connect.Decompressor, error) { return compression.GetDecompressor(enum) },
 				Enc: func(d []byte) ([]byte, error) {
 					c, err := compression.GetCompressor(enum)
 					if err != nil {
@@ -488,6 +602,7 @@ func TestVerifC20Agree(t *testing.T) {
 					return c20aDecompress(d, s)
 				}},
 			{Label: "tracer.GetDecompressor(" + name + ")", Src: "tracer",
+				NewDec: func() (connect.Decompressor, error) { return tracer.GetDecompressor(name), nil },
 				Dec: func(s []byte) ([]byte, error) { return c20aDecompress(tracer.GetDecompressor(name), s) }},
 			{Label: "tracer.GetDecompressor(" + strings.ToUpper(name) + ")", Src: "tracer",
 				Dec: func(s []byte) ([]byte, error) {
@@ -508,6 +623,12 @@ func TestVerifC20Agree(t *testing.T) {
 		}
 		if name == "identity" {
 			parties = append(parties, c20aParty{Label: "compression.Get(COMPRESSION_UNSPECIFIED)", Src: "enum",
+				NewComp: func() (connect.Compressor, error) {
+					return compression.GetCompressor(conformancev1.Compression_COMPRESSION_UNSPECIFIED)
+				},
+				NewDec: func() (connect.Decompressor, error) {
+					return compression.GetDecompressor(conformancev1.Compression_COMPRESSION_UNSPECIFIED)
+				},
 				Enc: func(d []byte) ([]byte, error) {
 					c, err := compression.GetCompressor(conformancev1.Compression_COMPRESSION_UNSPECIFIED)
 					if err != nil {
@@ -528,6 +649,8 @@ func TestVerifC20Agree(t *testing.T) {
 		if name == "gzip" {
 			// connect-go registers gzip itself (compress/gzip); neither peer overrides it
 			parties = append(parties, c20aParty{Label: "connect-go default gzip", Src: "connect-default",
+				NewComp: func() (connect.Compressor, error) { return gzip.NewWriter(io.Discard), nil },
+				NewDec:  func() (connect.Decompressor, error) { return &gzip.Reader{}, nil },
 				Enc: func(d []byte) ([]byte, error) { return c20aCompress(gzip.NewWriter(io.Discard), d) },
 				Dec: func(s []byte) ([]byte, error) { return c20aDecompress(&gzip.Reader{}, s) }})
 		}
@@ -541,6 +664,7 @@ func TestVerifC20Agree(t *testing.T) {
 					r.NotExhaustive("unknown decompressor constructor " + reg.Dec + " at " + reg.Pos)
 				} else {
 					p.Dec = func(s []byte) ([]byte, error) { return c20aDecompress(ctor(), s) }
+					p.NewDec = func() (connect.Decompressor, error) { return ctor(), nil }
 				}
 			}
 			if reg.Comp != "" {
@@ -549,6 +673,7 @@ func TestVerifC20Agree(t *testing.T) {
 					r.NotExhaustive("unknown compressor constructor " + reg.Comp + " at " + reg.Pos)
 				} else {
 					p.Enc = func(d []byte) ([]byte, error) { return c20aCompress(ctor(), d) }
+					p.NewComp = func() (connect.Compressor, error) { return ctor(), nil }
 				}
 			}
 			if p.Dec != nil || p.Enc != nil {
@@ -608,6 +733,40 @@ func TestVerifC20Agree(t *testing.T) {
 				}
 			}
 			r.Outcome(fmt.Sprintf("registrations:%s:server=%d,client=%d", name, nServer, nClient))
+		}
+
+		// every party that is a connect.Compressor / connect.Decompressor instance also as a pooled instance: the
+		// message is the SECOND one of an instance used and parked exactly as connect-go's compressionPool does
+		// (Reset(io.Discard) / Close + Reset(http.NoBody) between the uses, bytes.Buffer.WriteTo = no Write call at
+		// all for the empty message)
+		firstStream, firstErr := c20aIndepEncode(name, []byte("first message of the pooled instance"))
+		if firstErr != nil {
+			t.Fatalf("independent encoder %s: %v", name, firstErr)
+		}
+		for _, p := range append([]c20aParty{}, parties...) {
+			if p.NewComp == nil && p.NewDec == nil {
+				continue
+			}
+			pp := c20aParty{Label: p.Label + c20aPooledSuffix, Src: p.Src}
+			if newComp := p.NewComp; newComp != nil {
+				pp.Enc = func(d []byte) ([]byte, error) {
+					c, err := newComp()
+					if err != nil {
+						return nil, err
+					}
+					return c20aCompressPooled(c, d)
+				}
+			}
+			if newDec := p.NewDec; newDec != nil {
+				pp.Dec = func(s []byte) ([]byte, error) {
+					d, err := newDec()
+					if err != nil {
+						return nil, err
+					}
+					return c20aDecompressPooled(d, firstStream, s)
+				}
+			}
+			parties = append(parties, pp)
 		}
 
 		// 3. all pairs
@@ -685,6 +844,96 @@ func TestVerifC20Agree(t *testing.T) {
 					}
 					sort.Strings(others)
 					r.Outcome("cross-decode:" + name + ":also-decoded-by=[" + strings.Join(others, ",") + "]")
+				}
+			}
+		}
+
+		// 4. extreme expansion ratios: "any input" includes the inputs that compress best. Every decompressor the
+		// tree hands out under the name (compression.GetDecompressor, tracer.GetDecompressor, the registered
+		// constructors) must be the exact inverse also for messages that expand thousands of times: all-zero, one
+		// repeated byte, a short repeated pattern, at sizes 2^k-1, 2^k, 2^k+1.
+		for _, in := range c20aRatioInputs(rep.Thorough()) {
+			for _, prod := range parties {
+				if prod.Enc == nil {
+					continue
+				}
+				if strings.HasSuffix(prod.Label, c20aPooledSuffix) {
+					continue // this part is about the consumers (all of them, plain and pooled); the streams come from the plain producers
+				}
+				k++ // one shard item = one (input, producer): the message is built and compressed once
+				if replayOnly != nil {
+					if replayOnly.Enc != name || replayOnly.Input != in.Name || replayOnly.Producer != prod.Label {
+						continue
+					}
+				} else if !r.Mine(k) {
+					continue
+				}
+				if !deadline.IsZero() && time.Now().After(deadline) {
+					if !ratioBudgetHit {
+						r.NotExhaustive("budget reached in the extreme-ratio inputs at enc=" + name + " input=" + in.Name)
+						ratioBudgetHit = true
+					}
+					continue
+				}
+				data := in.Make()
+				stream, encErr := prod.Enc(data)
+				if encErr == nil && len(stream) > 0 {
+					ratio := len(data) / len(stream)
+					class := "<=1032x"
+					switch {
+					case ratio > 1032 && len(data) > 64*1024:
+						class = ">1032x and >64KiB"
+					case ratio > 1032:
+						class = ">1032x"
+					case ratio > 100:
+						class = ">100x"
+					}
+					r.Outcome("ratio:" + name + ":" + class)
+					r.Count("ratio-streams", 1)
+				}
+				for _, cons := range parties {
+					if cons.Dec == nil {
+						continue
+					}
+					cs := c20aCase{Enc: name, Input: in.Name, Producer: prod.Label, Consumer: cons.Label}
+					if replayOnly != nil && *replayOnly != cs {
+						continue
+					}
+					replayMatched = true
+					r.Eval(1)
+					r.Count("ratio-pairs", 1)
+					if prod.Src != cons.Src {
+						r.NonTrivial(fmt.Sprintf("%s|%s|%s|%s", name, in.Name, prod.Label, cons.Label))
+					}
+					if k%197 == 1 && cons.Src == "tracer" {
+						r.Sample(cs)
+					}
+					var got []byte
+					var decErr error
+					if encErr == nil {
+						got, decErr = cons.Dec(stream)
+					}
+					ok := encErr == nil && decErr == nil && bytes.Equal(got, data)
+					if replayOnly != nil {
+						fmt.Printf("C20 replay %+v:\n message %d bytes, stream (%d bytes) = %x\n enc_err=%v dec_err=%v got %d bytes identical=%v\n", cs, len(data), len(stream), stream[:min(len(stream), 64)], encErr, decErr, len(got), ok)
+					}
+					if ok {
+						r.Outcome("agree:" + name + ":ok")
+						continue
+					}
+					key := "name-mismatch:" + name
+					what := ""
+					switch {
+					case (encErr != nil && strings.HasPrefix(encErr.Error(), "panic:")) || (decErr != nil && strings.HasPrefix(decErr.Error(), "panic:")):
+						key = "panic:" + name
+					case encErr == nil && decErr == nil && len(got) < len(data) && bytes.Equal(got, data[:len(got)]):
+						// the consumer is the right algorithm but stops early without an error
+						key = "truncated-without-error:" + name
+						what = fmt.Sprintf(" (a strict PREFIX of the message, no error: the message expands %dx)", len(data)/max(len(stream), 1))
+					}
+					r.Outcome("agree:" + key)
+					r.Violate(key, fmt.Sprintf("encoding %q, input %s (%d bytes): what [%s] emits (%d bytes, err=%v) is decoded by [%s] to %d bytes, err=%v, identical=%v; want the %d original bytes%s",
+						name, in.Name, len(data), prod.Label, len(stream), encErr, cons.Label, len(got), decErr, bytes.Equal(got, data), len(data), what), cs)
 				}
 			}
 		}
